@@ -386,7 +386,7 @@ class C11(Property):
             pos += ln + rng.randrange(10, 400)
         length = pos + rng.randrange(100, 1000)
         clusters = []
-        for _ in range(rng.choice([1, 1, 2, 3])):
+        for _ in range(rng.choice([0, 1, 1, 2, 3])):
             i = rng.randrange(ngenes)
             k = rng.randrange(i, ngenes)
             core = [genes[i]["lo"], genes[k]["hi"]]
@@ -422,7 +422,7 @@ class C11(Property):
                         defs[cl["product"]] = rng.sample(names, rng.randrange(0, len(names) + 1)) \
                             + (rng.sample(PROFILES, rng.choice([0, 0, 1, 2])))
                 cdsres[f"cds{g}"] = {"domains": doms, "defs": defs}
-        outside = [n for n in cdsres if rng.random() < 0.15]
+        outside = [n for n in cdsres if rng.random() < (0.15 if clusters else 0.7)]
         saved = self.gen_opts(rng)
         cur = dict(saved)
         mut = None
@@ -469,6 +469,15 @@ class C11(Property):
                 case["record"]["circular"] = False
             case["hits"] = {g["name"]: [[p, rng.choice(FLOATS_B[:6]), rng.choice(FLOATS_E)]
                                         for p in rng.choice(HIT_RECIPES)] for g in case["record"]["genes"]}
+            if case["record"]["genes"] and rng.random() < 0.5:
+                # an already existing (e.g. sideloaded) subregion: its genes' hits are stored even without a protocluster
+                gs = case["record"]["genes"]
+                a = rng.randrange(len(gs))
+                b = rng.randrange(a, len(gs))
+                case["subregion"] = [max(0, gs[a]["lo"] - 5), gs[b]["hi"] + 5]
+                if rng.random() < 0.6:
+                    for g in gs:       # hits that satisfy no rule
+                        case["hits"][g["name"]] = [[p, "20.0", "1e-05"] for p in rng.choice([["PP-binding"], ["strH_like"], ["PKS_AT"], []])]
             if mut in ("unknown_cds", "empty_domains", "drop_category", "same_rules_other_strictness"):
                 case["mut"] = None
                 case["cur"] = dict(saved)
@@ -1013,6 +1022,9 @@ class C11(Property):
                           translation="M" * max(1, (g["hi"] - g["lo"]) // 3 - 1)) for g in r["genes"]]
         rec = DummyRecord(features=feats, seq="A" * r["length"], record_id=record_id or r["id"], circular=r["circular"])
         rec._record.annotations["molecule_type"] = "DNA"   # pylint: disable=protected-access
+        if case.get("subregion"):
+            from antismash.common.secmet.test.helpers import DummySubRegion
+            rec.add_subregion(DummySubRegion(case["subregion"][0], case["subregion"][1]))
         return renamed(rec, r["id"])
 
     @staticmethod
@@ -1125,6 +1137,7 @@ class C11(Property):
             x.rule_results.annotate_cds_features()     # as run_on_record does
         j_in = orjson.loads(orjson.dumps(x.to_json()))
         fresh_wire = to_wire(j_in) if via == "run" else None
+        n_outside, n_protos = len(x.rule_results.cdses_outside_clusters), len(x.get_predicted_protoclusters())
         saved_names = sorted(hmm_detection.get_ruleset(saved_opts).get_rule_names())
         mut = case.get("mut")
         applied = True
@@ -1142,6 +1155,7 @@ class C11(Property):
                      "fungi": case["cur"]["taxon"] == "fungi", "cutoff": dec_of(fl(case["cur"]["cutoff"])),
                      "neighbourhood": dec_of(fl(case["cur"]["nbh"]))},
             "n_clusters": len(case["clusters"]) + len(x.get_predicted_protoclusters()) + (1 if via == "run" else 0)}
+        obs["n_outside"], obs["n_protos"] = n_outside, n_protos
         if via == "run":
             obs["produced"] = {
                 "saved_opts": {"strictness": case["saved"]["strictness"], "rule_names": saved_names,
@@ -2071,6 +2085,8 @@ class C11(Property):
             tags += (f"hmmdet:via:{case.get('via', 'direct')}" + (":no-genes" if not case["record"]["genes"] else ""),)
             if case.get("reload"):
                 tags += ("hmmdet:reloaded-and-stripped",)
+            if obs.get("n_outside") and not obs.get("n_protos"):
+                tags += ("hmmdet:outside-hits-without-protocluster",)
         if known and failed_before:
             known = None         # another violation besides the recorded one
         if known:
